@@ -286,6 +286,11 @@ class ExprWorld:
             for q, fn in mod.funcs.items():
                 if "." not in q and q != "flatten_iterator":
                     g.setdefault(q, fde.FunctionValue(fn, self.ev, g))
+            for st in mod.tree.body:
+                if isinstance(st, ast.Assign):
+                    for t in st.targets:
+                        if isinstance(t, ast.Name):
+                            g.setdefault(t.id, Tag(t.id))
         # `from .constraints import cond/then` inside expr.py methods is a no-op here: names are global
         # array classes are not modelled in the scalar world
         for nm in ("BoolArray1D", "BoolArray2D", "IntArray1D", "IntArray2D"):
